@@ -290,6 +290,15 @@ FIXED_GUARD_ELSE = {
     "m": HDR + "\ngain = 1\n\ndef update(v):\n    db.Setting = v * gain\n    d1.Setting = gain + 10\n\nif __name__ == \"__main__\":\n    while True:\n        update(1)\nelse:\n    gain = 3\n    d2.Setting = 222\n",
 }
 
+# several libraries named in one import statement (with and without alias), one of them imported only for
+# its top-level code
+FIXED_MULTI_NAME_IMPORT = {
+    "": HDR + "from library import setup, pump as p, gauge\n\nwhile True:\n    yield_()\n    p.run(d1.Setting)\n    gauge.show(d1.Setting)\n",
+    "setup": HDR + "\nwarmup = 3\nd0.On = 1\nd0.Setting = warmup\n",
+    "pump": HDR + "\ndef run(v):\n    d2.Setting = v + 5\n",
+    "gauge": HDR + "\nd3.On = 1\n\ndef show(v):\n    d3.Setting = v\n",
+}
+
 FIXED_MULTI = {
     "": HDR + """from library import lib0
 from library import lib1 as other
@@ -353,7 +362,7 @@ def run(tier: str) -> int:
     rep.assumptions = ASSUMPTIONS
     known = harness.known_for(PROP)
     n = 150 if tier == "thorough" else 20
-    progs = [("fixed:two_libs", FIXED_MULTI, []), ("fixed:dead_constants", FIXED_DEAD_CONST, []), ("fixed:import_order", FIXED_IMPORT_ORDER, []), ("fixed:suffix_names_in_library", FIXED_SUFFIX_LIB, []), ("fixed:guard_else", FIXED_GUARD_ELSE, [])]
+    progs = [("fixed:two_libs", FIXED_MULTI, []), ("fixed:dead_constants", FIXED_DEAD_CONST, []), ("fixed:import_order", FIXED_IMPORT_ORDER, []), ("fixed:suffix_names_in_library", FIXED_SUFFIX_LIB, []), ("fixed:guard_else", FIXED_GUARD_ELSE, []), ("fixed:multi_name_import", FIXED_MULTI_NAME_IMPORT, [])]
     for i in range(n):
         seed = harness.seed() * 9973 + i + 1
         srcs, feats = gen_multi(seed)
